@@ -1256,13 +1256,13 @@ theorem table_lookup {cs : List (List Nat)} {g : List Nat → Option Rat} {c : L
   | none => simp [hst] at this
   | some x => exact ⟨x, rfl, rfl⟩
 
-/-- statistic modes, per channel: new voxels of channel `c` hold the statistic of that channel; the result is a float array -/
+/-- statistic modes, per channel: new voxels of channel `c` hold the statistic of that channel; the dtype is kept -/
 theorem padArray_stat_perChannel {v : Vol} {f : I3 → I3} {o : PadOpts} {a : I3 → List Nat → Rat} {b : Bool} {mode : PadMode}
     (hm : PadMode.parse o.mode = some mode) (hs : isStat mode = true)
     (hpc : (o.perChannel && !(v.cshape.isEmpty || v.cshape == [1])) = true)
     (h : padArray v f o = .ok (a, b)) (j : I3) (hj : v.geom.inRange (f j) = false) (c : List Nat)
     (hc : c ∈ chanIndices v.cshape) :
-    ∃ x, statOf mode (v.channelValues c) = some x ∧ a j c = castTo v.isInt x ∧ b = false := by
+    ∃ x, statOf mode (v.channelValues c) = some x ∧ a j c = castTo v.isInt x ∧ b = v.isInt := by
   unfold padArray at h
   rw [hm] at h
   dsimp only at h
